@@ -652,7 +652,7 @@ func (g *C15Gen) newDeploy(kind string) *cand {
 				}
 			}
 			c.Salts, c.Votes, c.Tries = map[common.Address][]byte{}, map[common.Address]byte{}, map[common.Address]int{}
-			c.Abandon = r.Intn(5) == 0
+			c.Abandon = r.Intn(4) == 0
 			c.Lazy = !c.Abandon && r.Intn(4) == 0
 			if c.Lazy {
 				cd.args[5] = []byte{byte(r.Range(15, 30))} // quorum nobody will reach
@@ -1002,6 +1002,14 @@ func (g *C15Gen) ovDuties(c *C15Contract) (acts []*cand, multi *C15Multi) {
 	switch stv {
 	case 0: // pending
 		if c.Abandon {
+			// 30 days after its start time anybody may clean an abandoned voting up
+			if g.nextTime() > c.StartTime+30*24*3600+60 && r.Intn(2) == 0 {
+				if from := g.rich(Dna(60)); from != nil {
+					g.usedS[from.Addr] = true
+					g.usedC[c] = true
+					acts = append(acts, &cand{txKind: "Terminate", kind: kOV, c: c, from: from, method: "terminate", amount: big.NewInt(0), shape: "valid", urgent: true})
+				}
+			}
 			return
 		}
 		if g.nextTime() < c.StartTime+20 && r.Intn(5) != 0 {
